@@ -486,12 +486,16 @@ Proof.
 Qed.
 
 Lemma acceptability_table :
-  (* default predicate (err == nil): only a nil error is a success - whatever the error value *)
-  (forall e o, e = EDo \/ e = EDoFb -> (counts_as_success e o = true <-> o = OOk)) /\
-  (* caller's predicate: nil and the errors it accepts (among them a wrapped
-     ErrServiceUnavailable and context.Canceled) are successes; a panic is a failure *)
+  (* default predicate (err == nil): exactly a nil return is a success - whatever the error
+     value, whatever the caller's predicate would have said *)
+  (forall e o, e = EDo \/ e = EDoFb -> (counts_as_success e o = true <-> returns_nil o = true)) /\
+  (* caller's predicate: a success iff the predicate ANSWERS true on the returned value - nil
+     included; a request or predicate that panics is a failure *)
   (forall e o, e = EDoAcc \/ e = EDoFbAcc ->
-     (counts_as_success e o = true <-> o = OOk \/ o = OErrA \/ o = OErrSUW \/ o = OCanceled)) /\
+     (counts_as_success e o = true <-> pred_answer o = Some true)) /\
+  (* the predicate of this development accepts nil, errA, the wrapped sentinel, context.Canceled -
+     and, looking at side state, may reject a nil (OOkRej) or accept errU (OErrUAcc) *)
+  (forall o, pred_answer o = Some true <-> o = OOk \/ o = OErrA \/ o = OErrSUW \/ o = OCanceled \/ o = OErrUAcc) /\
   (* the error comes back unchanged, the panic is re-raised - also when the value is one the
      breaker itself uses *)
   (forall e, is_allow e = false ->
@@ -499,16 +503,32 @@ Lemma acceptability_table :
      result_of e OErrA = RErrA /\ result_of e OPanic = RPanic /\
      result_of e OErrSU = RUnavailable /\ result_of e OErrSUW = RErrSUW /\
      result_of e OCanceled = RCtxDone /\ result_of e ODeadline = RDeadline /\
-     result_of e OErrFB = RFallback /\ result_of e OPanicSU = RPanicSU) /\
+     result_of e OErrFB = RFallback /\ result_of e OPanicSU = RPanicSU /\
+     result_of e OOkRej = RNil /\ result_of e OErrUAcc = RErrU) /\
   (* promise: Accept is a success, Reject a failure *)
   (forall o, counts_as_success EAllowAccept o = true /\ counts_as_success EAllowReject o = false).
 Proof.
-  split; [|split; [|split]].
+  split; [|split; [|split; [|split]]].
   - intros e o [H|H]; subst; destruct o; cbn; split; intros; try discriminate; reflexivity.
-  - intros e o [H|H]; subst; destruct o; cbn; split; intros; try discriminate; try reflexivity; auto;
+  - intros e o [H|H]; subst; destruct o; cbn; split; intros; try discriminate; reflexivity.
+  - intros o; destruct o; cbn; split; intros H; try discriminate; try reflexivity; auto 6;
       repeat match goal with H : _ \/ _ |- _ => destruct H end; discriminate.
   - intros e H. destruct e; cbn in H; try discriminate; repeat split; reflexivity.
   - intros o. split; reflexivity.
+Qed.
+
+(* seeded C01-11: the nil return is no exception - an admitted call whose request returned nil
+   and whose predicate says "unacceptable" is recorded as a FAILURE, exactly once *)
+Lemma nil_rejected_by_predicate_is_failure : forall cfg w c,
+  k_ctx c <> CDone -> (k_entry c = EDoAcc \/ k_entry c = EDoFbAcc) -> k_out c = OOkRej ->
+  rejected (snd (accept cfg (w_st w) (w_clock w + k_gap c) (k_u c))) = false ->
+  let w' := fst (step cfg w c) in
+  let o := snd (step cfg w c) in
+  w_marks w' = w_marks w ++ [(w_clock w + k_gap c + k_dur c, v_fail)] /\ o_res o = RNil /\ o_req o = 1 /\ o_fb o = 0.
+Proof.
+  intros cfg w c Hctx He Ho Hadm. cbn zeta. unfold step.
+  destruct (accept cfg (w_st w) (w_clock w + k_gap c) (k_u c)) as [s1 v] eqn:Ea. cbn [snd] in Hadm.
+  destruct (k_ctx c); try contradiction; rewrite Hadm, Ho; destruct He as [-> | ->]; cbn; auto.
 Qed.
 
 Lemma marks_count : forall cfg cs w,
